@@ -185,6 +185,9 @@ def c16(rec):
     for (a, den), amt in b1.items():
         if (a, den) not in ((creator, "ujkl"), (pol, "ujkl")) and b0.get((a, den), 0) != amt:
             out.append({"sig": {"prop": "C16", "kind": "other-balance-moved"}, "what": f"register {key}: balance of {a} {den} moved"})
+    if "resolvesTo" in rec and (rec["resolvesTo"] is None or canon_of(pre)(rec["resolvesTo"]) != creator):
+        out.append({"sig": {"prop": "C16", "kind": "registered-name-resolves-elsewhere"},
+                    "what": f"register {v.get('rawName')} by {creator} succeeded; the Name query for it answers {rec['resolvesTo']}"})
     w1 = n1.get(key)
     w0 = n0.get(key)
     if w1 is None or w1["value"] != creator:
